@@ -174,7 +174,9 @@ func runC03(ctx *Ctx) {
 	mins := []string{"-5", "0", "1", "1000", "1000000000000000000"}
 	forEachCase(ctx, n, func(i int, rng *rand.Rand) {
 		drv := i % 2
-		cfg := worldCfg{Drv: drv, Price: "1", IntervalNs: 1, Settle: true}
+		// the per-request cap on returned hosts is about peer requests only: a cut-off must reach
+		// every connected host the client peers with, however many that is
+		cfg := worldCfg{Drv: drv, Price: "1", IntervalNs: 1, Settle: true, MaxHosts: rng.Intn(3)}
 		unset := rng.Intn(6) == 0
 		m := new(big.Int)
 		if !unset {
@@ -184,13 +186,14 @@ func runC03(ctx *Ctx) {
 		}
 		var ops []*POp
 		ops = append(ops, &POp{Op: "connect", Node: "h1", Host: true, Kind: "geth"}, &POp{Op: "connect", Node: "h2", Host: true, Kind: "parity", Payout: "w2"})
-		if rng.Intn(3) == 0 { // h3 is registered but will have no live connection later
+		k := int64(1 + rng.Intn(3)) // peers billed
+		if k == 3 || rng.Intn(3) == 0 {
 			ops = append(ops, &POp{Op: "connect", Node: "h3", Host: true, Kind: "geth"})
 		}
+		ctx.Count(fmt.Sprintf("max-request-hosts:%d/peers:%d", cfg.MaxHosts, k))
 		// client's wallet gets a deposit around the minimum, then the client connects
 		delta := int64(rng.Intn(5) - 2)
 		charge := int64(1 + rng.Intn(50))
-		k := int64(1 + rng.Intn(2)) // peers billed
 		// deposit such that after a charge of k*charge the spendable balance is m + delta
 		linked := rng.Intn(4) != 0
 		// an operator's own host and client under one wallet: what the host earns in this
@@ -240,6 +243,10 @@ func runC07(ctx *Ctx) {
 		}
 		if i%10 == 4 {
 			c07Staged(ctx, i, drv, rng)
+			return
+		}
+		if i%10 == 7 || i%10 == 2 {
+			c07Contract(ctx, i, drv, rng)
 			return
 		}
 		cfg := worldCfg{Drv: drv, Price: "1", IntervalNs: 1, Settle: rng.Intn(10) != 0, FeeFresh: rng.Intn(2) == 0}
